@@ -555,6 +555,7 @@ class NDRouterAdvertisement (icmp_base):
     if buf_len is None: buf_len = len(raw)
 
     try:
+      if buf_len - offset < 12: raise TruncatedException()
       o.hop_limit,flags,o.lifetime,o.reachable,o.retrans_timer = \
           struct.unpack_from("!BBHII", raw, offset)
       offset += 1 + 1 + 2 + 4 + 4
@@ -779,6 +780,11 @@ class PacketTooBig (icmp_base):
 
     _offset = offset
     if buf_len is None: buf_len = len(raw)
+    if buf_len - offset < 4:
+      # Truncated: no MTU field
+      o.raw = raw[_offset:buf_len]
+      o.prev = prev
+      return buf_len,o
 
     try:
       o.mtu = struct.unpack_from("!I", raw, offset)[0]
